@@ -17,6 +17,7 @@ from types import SimpleNamespace
 
 from harness.common import LeanError, Report, f2b, lst, lean_stage, seeded
 from harness.props import perm_common as pc
+from harness.props.extra_stage import ExtraLeanStage
 
 REGISTRY = dict(
     text=("PARTIAL. Lean 4 theorems for every n, every permutation and every payload: permute_list/tuple/string/tensor are "
@@ -27,7 +28,13 @@ REGISTRY = dict(
           "untouched); the effective optimize_qubit_ordering is on only for observables that are un-permuted or whole-register "
           "scalars. The end-to-end claim (C03_full) is proved only from the assumption that the solver is equivariant under "
           "relabelling (C03_partial): solver accuracy is assumed, and end-to-end runs are not yet searched because the known "
-          "defects D1/D2/D3 are being repaired. Model tied to the code by exact correspondence."),
+          "defects D1/D2/D3 are being repaired. Model tied to the code by exact correspondence. For the IDEAL solver (exact "
+          "matrix exponential of the piecewise-constant dense Hamiltonian of C05, any N, d, permutation, schedule; Rydberg and XY) the "
+          "assumption is discharged in Props/C03Ideal.lean: siteEmb_conj / hamiltonian_relabel (P_s H(h,U) P_s^T = H(h.s, U.(s x s))), "
+          "ideal_run_relabel, bitstring_prob_relabel, occupation_relabel, correlation_relabel, energy_relabel, idealRun_equivariant "
+          "(Equivariant idealRun), C03_ideal (C03_full idealRun) and installed_is_reorder / C03_ideal_installed (what the C02 "
+          "constructor model installs is Problem.reorder p); the site-order dependence of the real TDVP/Krylov solver (1e-8..1e-5 "
+          "measured) stays an assumption validated by the end-to-end metamorphic search."),
     note=("Trusted: Lean kernel + propext/Classical.choice/Quot.sound; Mathlib; hand-written Model.Perm tied by correspondence "
           "only (n <= 30, synthetic Results); the solver (TDVP/DMRG, P H P^T conjugation, drives and dark-atom mask) is outside "
           "this check; dtype handling of torch index tensors and the float32 conversion of list-valued results are outside "
@@ -38,6 +45,8 @@ REGISTRY = dict(
 
 PROP_MODULE = "EmuVerif.Props.C03"
 AUDIT = "Audit/C03.lean"
+# ideal-solver equivariance (matrix exponential: heavier Mathlib) — built, grepped and audited on every run, beside the Python side
+EXTRA_STAGES = [("EmuVerif.Props.C03Ideal", "Audit/C03Ideal.lean")]
 
 
 # ------------------------------------------------------------------ synthetic Results
@@ -437,9 +446,14 @@ def check(rep: Report, tier: str, seed: int) -> None:
     rep.assumptions = [
         "PARTIAL: solver equivariance under relabelling (Equivariant) is assumed, not proved; end-to-end runs are not searched yet "
         "(D1/D2/D3 of DESIGN §6 are being repaired)",
+        "Props/C03Ideal.lean proves Equivariant / C03_full for the IDEAL solver only (exact exp(-i t_k H_k) of the dense Hamiltonian, "
+        "every N, permutation, schedule); the real TDVP/Krylov/truncation solver is not the ideal exponential: its site-order "
+        "dependence (1e-8..1e-5 measured, notes/perm.md) is assumed small and validated by the metamorphic end-to-end search",
         "Results are synthetic (built with pulser's Results._store_raw), not produced by a back-end run",
     ]
     lean_stage(rep, PROP_MODULE, AUDIT, thorough=(tier == "thorough"))
+    extra = ExtraLeanStage(rep, EXTRA_STAGES, thorough=(tier == "thorough"))     # concurrent with the Python side
+    extra.start()
     rng = seeded(seed * 7919 + 3)
     quick = tier == "quick"
     pc.helper_correspondence(rep, rng, 300 if quick else 8000)
@@ -448,6 +462,7 @@ def check(rep: Report, tier: str, seed: int) -> None:
     observables_correspondence(rep, rng, 25 if quick else 200)
     probe_list_precision(rep)
     e2e_search(rep, rng, 2 if quick else 30, 3 if quick else 4)
+    extra.merge()
     if rep.broken and not rep.failing:
         search(rep, seed, 400 if quick else 5000)
 
